@@ -114,12 +114,13 @@ class HelloUnit:
     """One region -> one Gallina file Gen/<name>.v"""
 
     def __init__(self, name, func, start, end, inputs, schema_thunk, registries, externals=None, local_types=None,
-                 slice_doc='', pre=None):
+                 slice_doc='', pre=None, opaque=None):
         self.name, self.func, self.start, self.end = name, func, start, end
         self.inputs, self.schema_thunk, self.registries = inputs, schema_thunk, registries
         self.externals = externals or {}
         self.local_types = local_types or {}
         self.slice_doc = slice_doc
+        self.opaque = opaque or {}
         self.pre = pre          # dict(name, args, gallina, prove, use): see crashlite.emit_proofs
         self.last = None
 
@@ -136,7 +137,7 @@ class HelloUnit:
             raise Refuse('function %s not found' % self.func)
         schema = self.schema_thunk()
         rt = cl.RegionTranslator(self.name, schema, vars(mod), fdef, self.start, self.end, self.inputs,
-                                 self.registries, externals=self.externals)
+                                 self.registries, externals=self.externals, opaque=self.opaque)
         body = rt.translate(self.local_types)
         self.last = rt
         head = ['(* GENERATED by translator/crashlite.py (unit %s) from %s:%s lines %d-%d -- do not edit.'
@@ -165,8 +166,14 @@ Definition ch_pre (clientHello : ClientHello_r) : Prop :=
     exists x l, SupportedVersionsExtension_versions r = Some (x :: l).
 ''',
     prove='''unfold ch_pre; let r_ := fresh "r_" in let Hr_ := fresh "Hr_" in intros r_ Hr_;
-  match goal with E : getExtensionAs as_SupportedVersionsExtension _ 43 = _ |- _ => rewrite E in Hr_ end;
-  first [ discriminate Hr_ | injection Hr_ as <-; eauto ]''',
+  match goal with
+  | E : getExtensionAs as_SupportedVersionsExtension _ 43 = OK None |- _ => rewrite E in Hr_; discriminate Hr_
+  | E : getExtensionAs as_SupportedVersionsExtension _ 43 = OK (Some ?s) |- _ =>
+    tryif constr_eq s r_ then fail else
+    (rewrite E in Hr_; injection Hr_ as <-;
+     repeat match goal with H : Some _ = Some _ |- _ => injection H as H end;
+     subst; eauto)
+  end''',
     use='''match goal with
   | Hpre : ch_pre _, E : getExtensionAs as_SupportedVersionsExtension _ 43 = OK (Some ?r)
     |- context [SupportedVersionsExtension_versions ?r] =>
@@ -316,11 +323,12 @@ def sh_unit():
         'ShChecks', '_clientGetServerHello',
         start='real_version = serverHello.server_version', end='yield serverHello',
         inputs=[('serverHello', OBJ('ServerHello')), ('clientHello', OBJ('ClientHello')), ('settings', OBJ('Settings')),
-                ('hello_retry', OPT(OBJ('ServerHello'))),
+                ('hello_retry', OPT(OBJ('ServerHello'))), ('defrag_is_empty', BOOL),
                 ('CipherSuite_filterForVersion', FUN([LIST(Z), VER, VER], LIST(Z)))],
         schema_thunk=sh_schema,
         registries={'ServerHello': registry_server, 'ClientHello': registry_client},
         externals={'CipherSuite.filterForVersion': ([LIST(Z), VER, VER], LIST(Z))},
+        opaque={'self._defragmenter.is_empty()': ('defrag_is_empty', BOOL)},
         slice_doc='slice: from "real_version = serverHello.server_version" up to (not including) "yield serverHello": '
                   'the checks of the (final) ServerHello against the ClientHello and the settings')
 
